@@ -238,7 +238,7 @@ def apply_op(roots, op, allow_move=True, direct_inplace=False, prebuilt=None, bu
       elif name == 'clear':
         n.clear()
       elif name in ('iadd', 'imul', 'ior'):
-        arg = as_list(val) if name == 'iadd' else (m % 3 if name == 'imul' else as_dict(val))
+        arg = as_list(val) if name == 'iadd' else (m % 4 if name == 'imul' else as_dict(val))
         p = n.sym_parent
         if direct_inplace:
           # the operator method itself (no re-assignment of the slot that holds n)
